@@ -158,8 +158,13 @@ type caseInfo struct {
 // runCase runs one case on the implementation, evaluates the oracle, and emits the Coq case.
 // expect: "" (must hold), or "finding" (a corpus case of a known finding: reported through
 // sum.Fail with the case as stable key while it fails).
+var gOpts *vh.Opts
+
 func runCase(c *Case, sum *vh.Summary, cw *vh.CaseWriter, verbose bool) caseInfo {
 	var info caseInfo
+	if gOpts != nil {
+		vh.Current(gOpts, c)
+	}
 	xp := c.Target.XPath()
 	res := stream(c, xp)
 	want, nested, rejected, werr := wholeDoc(c)
@@ -297,15 +302,7 @@ const maxFilters = 3
 
 func genCase(r *vh.Rng) (*Case, bool) {
 	if r.Chance(0.55) {
-		doc := sx.GenXMLDoc(r)
-		text := sx.XMLText(r, doc)
-		toks, ok := sx.XMLTokens(text)
-		back, ok2 := sx.XMLFromTokens(toks)
-		if !ok || !ok2 || !sx.SameXN(doc, back) {
-			fmt.Fprintf(os.Stderr, "generator: xml.Decoder does not give back the generated document: %q\n", text)
-			return nil, false
-		}
-		return &Case{Format: "xml", Text: text, Target: sx.GenTarget(r, sx.XMLVocab(doc), maxFilters, false), Rel: genRel(r)}, true
+		return genXMLCase(r, sx.GenXMLDoc(r))
 	}
 	doc := sx.GenJSONDoc(r)
 	text := sx.JSONText(r, doc)
@@ -318,6 +315,145 @@ func genCase(r *vh.Rng) (*Case, bool) {
 	return &Case{Format: "json", Text: text, Target: sx.GenTarget(r, sx.JSONVocab(doc), maxFilters, true), Rel: genRel(r)}, true
 }
 
+func genXMLCase(r *vh.Rng, doc []*sx.XN) (*Case, bool) {
+	text := sx.XMLText(r, doc)
+	toks, ok := sx.XMLTokens(text)
+	back, ok2 := sx.XMLFromTokens(toks)
+	if !ok || !ok2 {
+		fmt.Fprintf(os.Stderr, "generator: not well-formed: %q\n", text)
+		return nil, false
+	}
+	if sx.Rebinds(doc) {
+		// declarations on inner elements: the prefix the reader stores comes from its document-wide
+		// last-wins URI->prefix map (F11) and may differ from the prefix written; targets are aimed
+		// at the names as stored (the token stream with the reader's name resolution)
+		doc = back
+	} else if !sx.SameXN(doc, back) {
+		fmt.Fprintf(os.Stderr, "generator: xml.Decoder does not give back the generated document: %q\n", text)
+		return nil, false
+	}
+	return &Case{Format: "xml", Text: text, Target: sx.GenTarget(r, sx.XMLVocab(doc), maxFilters, false), Rel: genRel(r)}, true
+}
+
+// ---- several readers alive at once ---------------------------------------------------------------
+
+// interleave creates one reader per case, all alive at once on this goroutine, and reads them
+// alternately (random switch points).  Oracle: what each reader delivers is what it delivers when
+// it runs alone.
+func interleave(o *vh.Opts, cs []*Case, r *vh.Rng, sum *vh.Summary) bool {
+	desc := map[string]interface{}{"interleaved": cs}
+	vh.Current(o, desc)
+	solo := make([]result, len(cs))
+	for i, c := range cs {
+		solo[i] = stream(c, c.Target.XPath())
+		if strings.HasPrefix(solo[i].Fin, "xpath-rejected") {
+			return false
+		}
+	}
+	var schedule []int
+	got := make([]result, len(cs))
+	what := ""
+	func() {
+		defer func() {
+			if p := recover(); p != nil {
+				what = fmt.Sprint("panic while readers are interleaved: ", p)
+			}
+		}()
+		rds := make([]streamReader, len(cs))
+		for i, c := range cs {
+			rd, err := newReader(c.Format, c.Text, c.Target.XPath())
+			if err != nil {
+				what = "reader creation failed: " + err.Error()
+				return
+			}
+			rds[i] = rd
+		}
+		live := len(cs)
+		for live > 0 && len(schedule) < 100000 {
+			i := r.Pick(len(cs))
+			if got[i].Fin != "" {
+				continue
+			}
+			for k, burst := 0, r.Between(1, 3); k < burst && got[i].Fin == ""; k++ {
+				schedule = append(schedule, i)
+				n, err := rds[i].Read()
+				if err != nil {
+					if err.Error() == "EOF" {
+						got[i].Fin = "EOF"
+					} else {
+						got[i].Fin = "error: " + err.Error()
+					}
+					live--
+					break
+				}
+				d := len(got[i].Deliveries)
+				got[i].Deliveries = append(got[i].Deliveries, delivery{Dump: vh.CoqTree(n), Size: vh.TreeSize(vh.Root(n)), Type: n.Type.String()})
+				if d < len(cs[i].Rel) && cs[i].Rel[d] {
+					rds[i].Release(n)
+				}
+			}
+		}
+	}()
+	nontrivial := false
+	for i := range cs {
+		if len(solo[i].Deliveries) >= 2 {
+			nontrivial = true
+		}
+		if what != "" {
+			break
+		}
+		if got[i].Fin != solo[i].Fin || len(got[i].Deliveries) != len(solo[i].Deliveries) {
+			what = fmt.Sprintf("reader %d delivers %d records (end: %s) while other readers are alive, but %d (end: %s) when it runs alone",
+				i, len(got[i].Deliveries), got[i].Fin, len(solo[i].Deliveries), solo[i].Fin)
+			break
+		}
+		for k := range got[i].Deliveries {
+			if got[i].Deliveries[k] != solo[i].Deliveries[k] {
+				what = fmt.Sprintf("delivery %d of reader %d differs from the delivery of the same reader running alone", k, i)
+				break
+			}
+		}
+	}
+	if what != "" {
+		desc["schedule"] = schedule
+		sum.Fail("the deliveries of a stream reader depend on other readers alive in the process: "+what, desc, nil)
+	}
+	return nontrivial
+}
+
+// nsPair: documents that bind the SAME namespace URI to DIFFERENT prefixes (or one of them as the
+// default namespace), targets written with those prefixes.
+func nsPair(r *vh.Rng) []*Case {
+	var cs []*Case
+	prefixes := []string{"p", "q", "inv", ""}
+	r.Shuffle(len(prefixes), func(i, j int) { prefixes[i], prefixes[j] = prefixes[j], prefixes[i] })
+	for _, pfx := range prefixes[:r.Between(2, 3)] {
+		item := func(v string) string {
+			tag := "item"
+			if pfx != "" {
+				tag = pfx + ":item"
+			}
+			return "<" + tag + ">" + v + "</" + tag + ">"
+		}
+		decl, feed := `xmlns="urn:feed"`, "feed"
+		if pfx != "" {
+			decl, feed = "xmlns:"+pfx+`="urn:feed"`, pfx+":feed"
+		}
+		var sb strings.Builder
+		sb.WriteString("<" + feed + " " + decl + ">")
+		for i, n := 0, r.Between(3, 9); i < n; i++ {
+			sb.WriteString(item(fmt.Sprint(r.Pick(100))))
+		}
+		sb.WriteString("</" + feed + ">")
+		tg := sx.Target{Steps: []sx.Step{{NT: sx.NT{Prefix: pfx, Local: "feed"}}, {NT: sx.NT{Prefix: pfx, Local: "item"}}}}
+		if r.Chance(0.3) {
+			tg.Steps = []sx.Step{{Desc: true, NT: sx.NT{Prefix: pfx, Local: "item"}}}
+		}
+		cs = append(cs, &Case{Format: "xml", Text: sb.String(), Target: tg, Rel: genRel(r)})
+	}
+	return cs
+}
+
 type corpusFile struct {
 	Case   Case   `json:"case"`
 	Expect string `json:"expect"` // "pass" | "finding"
@@ -326,6 +462,7 @@ type corpusFile struct {
 
 func main() {
 	o := vh.ParseOpts()
+	gOpts = o
 	r := vh.NewRng(o.Seed)
 	sum := vh.NewSummary("C04", o,
 		"(document, target xpath, release pattern) triples streamed through idr.NewXMLStreamReader / NewJSONStreamReader and compared with idr.MatchAll on the fully loaded document; non-trivial = the path part of the target matches at least one node of the document (candidate marking, closing check and pruning are exercised); distinct by (format, text, xpath, release pattern)")
@@ -337,6 +474,27 @@ func main() {
 		if err != nil || json.Unmarshal(b, &rf) != nil {
 			fmt.Println("cannot read replay file", o.Replay, err)
 			os.Exit(2)
+		}
+		var il struct {
+			Case struct {
+				Interleaved []*Case `json:"interleaved"`
+			} `json:"case"`
+		}
+		if json.Unmarshal(b, &il) == nil && len(il.Case.Interleaved) > 0 {
+			for i, c := range il.Case.Interleaved {
+				fmt.Printf("reader %d: format=%s xpath=%s text=%q\n", i, c.Format, c.Target.XPath(), c.Text)
+			}
+			nt := interleave(o, il.Case.Interleaved, r, sum)
+			for _, f := range sum.Failures {
+				fmt.Println("ORACLE FAILS:", f.What)
+			}
+			if len(sum.Failures) == 0 {
+				fmt.Println("oracle holds: every reader delivers what it delivers alone")
+			}
+			sum.Count(o.Replay, nt)
+			sum.Write(o)
+			vh.Done(o)
+			return
 		}
 		info := runCase(&rf.Case, sum, cw, true)
 		sum.Count(o.Replay, info.Nontrivial)
@@ -381,7 +539,30 @@ func main() {
 			sum.Sample(map[string]interface{}{"format": c.Format, "text": c.Text, "xpath": c.Target.XPath()})
 		}
 	}
+	// ---- readers alive at once: same URI under different prefixes, and random pairs/triples ----
+	pairs := o.Count(300, 6000)
+	for i := 0; i < pairs; i++ {
+		var cs []*Case
+		if i%2 == 0 {
+			cs = nsPair(r)
+			sum.Hist("interleaved:same-uri-different-prefixes")
+		} else {
+			for k, n := 0, r.Between(2, 3); k < n; k++ {
+				if c, ok := genCase(r); ok {
+					cs = append(cs, c)
+				}
+			}
+			sum.Hist("interleaved:random")
+		}
+		if len(cs) < 2 {
+			continue
+		}
+		nt := interleave(o, cs, r, sum)
+		canon, _ := json.Marshal(cs)
+		sum.Count(string(canon), nt)
+	}
 	cw.Flush()
 	sum.CaseFiles = cw.Files
 	sum.Write(o)
+	vh.Done(o)
 }
